@@ -16,6 +16,8 @@ namespace C14Drv
 
 def nClients : Nat := 10
 def sys : Tid := 10
+/-- the goroutine of a racing delete (`D` hook) -/
+def sys2 : Tid := 11
 
 structure World where
   segs : Array State
@@ -26,6 +28,7 @@ structure World where
   closed : Bool := false
   hook : Option (Nat × Nat) := none             -- armed: client, segment
   hookRes : String := ""
+  hookD : Option Nat := none                    -- armed: delete segment i while it is being reopened
   legacy : Bool := false
   broken : Bool := false                        -- a model call was not enabled (driver bug)
 
@@ -62,10 +65,51 @@ def World.addHeld (w : World) (c i : Nat) : World :=
 def World.subHeld (w : World) (c i : Nat) : World :=
   { w with held := w.held.set! c ((w.held[c]!).set! i ((w.held[c]!)[i]! - 1)) }
 
+/-- run thread `t` of state `s` until it is idle again or blocked on the mutex -/
+def runT (s : State) (t : Tid) (ok : Bool) : Nat → State
+  | 0 => s
+  | n + 1 =>
+    match s.ts[t]? with
+    | none => s
+    | some th =>
+      if th.pc == .idle then s
+      else match s.step (.step t .incRef ok) with
+        | none => s
+        | some s' => runT s' t ok n
+
+/-- `incRef` of thread `t` racing a delete of the same segment: the deleting thread (`delThread`)
+runs `delete()` – store the flag, load refCount, block on the mutex – at the moment `t` is inside
+`initialize` (pc `aqInit`, index closed, mutex held); then `t` finishes, then the deleter. -/
+def incRefRaced (s : State) (t delThread : Tid) (ok : Bool) : State × Bool := Id.run do
+  let some s1 := s.step (.step t .incRef ok) | return (s, false)
+  let mut s := s1
+  let mut fired := false
+  for _ in [0:24] do
+    let some th := s.ts[t]? | break
+    if th.pc == .idle then break
+    if !fired && th.pc == .aqInit && !s.sh.isOpen then
+      fired := true
+      match s.step (.step delThread .delete ok) with
+      | some s' => s := runT s' delThread ok 24
+      | none => pure ()
+    match s.step (.step t .incRef ok) with
+    | some s' => s := s'
+    | none => break
+  if fired then s := runT s delThread ok 24
+  return (s, fired)
+
 /-- `segment.incRef` by thread `t`; returns success -/
 def World.incRef (w : World) (t : Tid) (i : Nat) : World × Bool :=
-  let w := w.call i t .incRef
-  (w, (w.th i t).res == .ok)
+  if w.hookD == some i then
+    let (s, fired) := incRefRaced (w.seg i) t sys2 ((w.fail[i]!) == 0)
+    let w := w.setSeg i s
+    let w := if fired then
+        { w with hookD := none, hookRes := w.hookRes ++ "+D:done", listed := w.listed.set! i false }
+      else w
+    (w, (w.th i t).res == .ok)
+  else
+    let w := w.call i t .incRef
+    (w, (w.th i t).res == .ok)
 
 /-- `DecRef` as issued by a caller that believes it pinned: owned if the thread really owns a
 reference, stray otherwise (only possible for legacy callers) -/
@@ -250,10 +294,11 @@ def World.op (w : World) (o : String) : World × String :=
     ({ w with closed := true, listed := w.listed.map fun _ => false }, "ok")
   | ['R'] => ((List.range nClients).foldl (fun w c => w.releaseAll c) w, "ok")
   | ['h', c, i] => ({ w with hook := some (digit c, digit i) }, "ok")
+  | ['D', i] => ({ w with hookD := some (digit i) }, "ok")
   | _ => ({ w with broken := true }, "bad-op")
 
 def freshSeg : State :=
-  let s : State := { sh := Shared.init, ts := List.replicate (nClients + 1) Th.init }
+  let s : State := { sh := Shared.init, ts := List.replicate (nClients + 2) Th.init }
   -- CreateSegmentIfNotExist: create (dormant), incRef, lastAccessed := now, caller DecRef
   let s := (s.call sys .incRef).getD s
   let s := (s.call sys (.touch 2)).getD s
@@ -270,7 +315,7 @@ def validOp (k : Nat) (o : String) : Bool :=
   | ['a', c, i] | ['r', c, i] | ['u', c, i] | ['h', c, i] => dOk c 10 && dOk i k
   | ['s', c, lo, hi] | ['p', c, lo, hi] => dOk c 10 && dOk lo k && dOk hi k
   | ['q', c] => dOk c 10
-  | ['g', i] | ['x', i] => dOk i k
+  | ['g', i] | ['x', i] | ['D', i] => dOk i k
   | ['t', j] => dOk j (k + 1)
   | ['f', i, v] => dOk i k && dOk v 3
   | ['G'] | ['i'] | ['o'] | ['e'] | ['n'] | ['m'] | ['k'] | ['c'] | ['R'] => true
@@ -287,8 +332,8 @@ def handle (legacy : Bool) (line : String) : String :=
       let (w, out) := ops.foldl (fun (acc : World × List String) o =>
         let (w, r) := acc.1.op o
         -- the hook is armed for the op that follows `h` only
-        let (w, r) := if o.startsWith "h" then (w, r)
-          else ({ w with hook := none, hookRes := "" }, r ++ w.hookRes)
+        let (w, r) := if o.startsWith "h" || o.startsWith "D" then (w, r)
+          else ({ w with hook := none, hookD := none, hookRes := "" }, r ++ w.hookRes)
         (w, acc.2 ++ [r ++ "=" ++ w.dump])) (w, ["init=" ++ w.dump])
       if w.broken then "MODEL-STUCK " ++ " ".intercalate out else " ".intercalate out
     | none => "bad-op"
